@@ -765,7 +765,14 @@ func runC04(c *Ctx, r *Report) {
 			for v := range backSlice(call.Call.Args[1], nil) {
 				if c2, ok := v.(*ssa.Call); ok && c2.Parent() == sf && isIntType(c2.Type()) && derivesFromField(c2, ptrF) {
 					if cal := c2.Call.StaticCallee(); cal != nil && p.firstParty(calleePkg(cal)) && calleeOf(c2) != pow && minMaxHelper(p, p.ByObj[calleeOf(c2)]) == "" {
-						req = c2
+						// the helper is handed the options value itself
+						for _, a := range c2.Call.Args {
+							if q := paramBehind(a); q != nil && q.Parent() == sf {
+								if pt, ok := q.Type().Underlying().(*types.Pointer); ok && namedOf(pt.Elem()) == p.Named("iface", "AppendOptions") {
+									req = c2
+								}
+							}
+						}
 					}
 				}
 			}
